@@ -1,12 +1,14 @@
 import SamVerif.Generated.ParserLoops
 /-
-Progress skeletons of three loops of `crates/samlang-parser/src/source_parser.rs` as transition
+Progress skeletons of five loops of `crates/samlang-parser/src/source_parser.rs` as transition
 systems over the remaining token list (`[]` = the parser sits at EOF: `peek()` then keeps answering
 `EndOfFile` and `consume()` cannot drop anything, which is exactly why every loop must leave at EOF).
 
 * `parse_module` (281-303): 'outer/inner recovery loop                      → `toplevelLoop`
 * `parse_comma_separated_list_with_end_token_with_start` (180-199)          → `commaLoop`
 * `expression_parser::parse_block` (1650-1764): statement loop              → `blockLoop`
+* `toplevel_parser::parse_class` member loops (381-385, 421-425)            → `memberLoop`
+* `expression_parser::parse_match` arm loop (703-710)                       → `matchLoop`
 
 Sub-parsers (`parse_toplevel`, `parse_expression`, `parse_statement`, the list-element parser) are an
 arbitrary function `sub` on the remaining tokens: the theorems only assume it never "un-reads"
@@ -21,6 +23,8 @@ open SamVerif.Generated.ParserLoops
 /-- token classes the three loops dispatch on -/
 inductive TK where
   | cls       -- `class` / `interface` / `private`
+  | member    -- `function` / `method` / `private` (inside a class body)
+  | pat       -- a pattern start token: `{` `(` `_` LowerId UpperId (inside a match body)
   | letK
   | rbrace
   | semi
@@ -62,6 +66,21 @@ def blockLoop (sub : List TK → List TK) : Nat → List TK → Option (List TK)
     | .rbrace :: r => some r
     | [] => some []
     | u :: r => blockLoop sub f (consumeIf blockElseConsumes (u :: r))   -- report, maybe consume
+
+/-- class-member loop (`parse_class`, source_parser.rs:381-385 and 421-425): while the next token is
+`function`/`method`/`private`, parse a member; the member parser
+(`parse_class_member_declaration_common`) consumes the keyword it was dispatched on, then whatever. -/
+def memberLoop (sub : List TK → List TK) : Nat → List TK → Option (List TK)
+  | 0, _ => none
+  | f + 1, .member :: rest => memberLoop sub f (sub (consumeIf memberConsumesKeyword (.member :: rest)))
+  | _ + 1, ts => some ts                            -- anything else (also EOF): leave the loop
+
+/-- match-arm loop (`parse_match`, source_parser.rs:703-710): while the next token can start a
+pattern, parse `pattern -> expression [,]`; the pattern parser consumes that start token. -/
+def matchLoop (sub : List TK → List TK) : Nat → List TK → Option (List TK)
+  | 0, _ => none
+  | f + 1, .pat :: rest => matchLoop sub f (sub (consumeIf matchArmConsumesStart (.pat :: rest)))
+  | _ + 1, ts => some ts
 
 /-- a sub-parser never returns more tokens than it was given -/
 def NoUnread (sub : List TK → List TK) : Prop := ∀ ts, (sub ts).length ≤ ts.length
